@@ -298,8 +298,19 @@ const slotLimit = 512
 // awaiting a response, the slot limit yields ErrMax without blocking,
 // abandoned requests free their slot and may be answered late.
 func TestC17Slots(t *testing.T) {
-	rapid.Check(t, func(rt *rapid.T) {
-		h := newH(rt, "C17", sim.Options{Config: baseConfig()})
+	rapid.Check(t, func(rt *rapid.T) { slotsCase(rt, "C17", false) })
+}
+
+// TestC11CounterLap is the same history judged for C11 (every call returns,
+// with the answer to its own request), always with the long run of answered
+// requests which makes the 13-bit counter lap the requests still open.
+func TestC11CounterLap(t *testing.T) {
+	rapid.Check(t, func(rt *rapid.T) { slotsCase(rt, "C11", true) })
+}
+
+func slotsCase(rt *rapid.T, prop string, lap bool) {
+	{
+		h := newH(rt, prop, sim.Options{Config: baseConfig()})
 		nontrivial := false
 		defer func() { h.finish(nontrivial) }()
 		h.Act("appStep")
@@ -307,6 +318,10 @@ func TestC17Slots(t *testing.T) {
 		n := rapid.SampledFrom([]int{3, 40, 300, 511, 512, 513, 530}).Draw(rt, "requests")
 		abandonEvery := rapid.SampledFrom([]int{0, 0, 3, 7}).Draw(rt, "abandonEvery")
 		churn := rapid.SampledFrom([]int{0, 0, 0, 8200}).Draw(rt, "churn")
+		if lap {
+			churn = 8200
+			h.label("counter-laps-open-requests")
+		}
 		if !thorough && churn > 0 && n > 40 {
 			n = 40
 		}
@@ -471,5 +486,5 @@ func TestC17Slots(t *testing.T) {
 			h.label("abandoned-then-answered-late")
 			nontrivial = true
 		}
-	})
+	}
 }
